@@ -14,8 +14,8 @@ T0S = [5000, 70000, 4294966000, 4294967200, 4294967295, 2147483000, 2147484500, 
 JUMPS = [0, 1, 2, 49, 50, 51, 99, 100, 101, 200, 249, 250, 251, 1000, 60000, 2147483647, 2147483648, 4294967295, 4294967296, 4294967297, 4294966296,
          10 ** 10]
 GF_SRC = 61                          # source address reserved for never-completing PGN 126208 transfers: nothing else sends TP.DT from it
-GF_OTHER = [62, 63]                  # sources of PGN 126208 traffic to address 254 (the continuation search ignores the destination, so these
-                                     # sources never send PGN 126208 to us)
+GF_OTHER = [62, 63]                  # sources of PGN 126208 traffic to address 254; they never send PGN 126208 to us, so that no continuation frame
+                                     # meant for 254 can complete a message for us whatever the slot matching rule is
 PEERS = [50, 51, 52, 0, 23, 251, 254, 255]
 
 
@@ -293,7 +293,7 @@ def ep_tp_send(c):
     r = c.r
     idev = r.randrange(c.ndev)
     peer = r.choice([50, 51, 255, 255]) if r.random() < 0.8 else c.own_addr()
-    pgn = r.choice([129029, 130816, 126996, 127489, 126208])
+    pgn = r.choice([126720, 126720, 61184, 126208, 129029, 130816, 126996])      # PDU1 PGNs keep the destination: RTS/CTS; PDU2 PGNs go out as BAM
     n = r.choice([9, 14, 20, 36, 100, 222, 223])
     c.ops.append('S %d %d %d 0 %d 1 %s' % (idev, r.choice([3, 6]), pgn, peer, rb(r, n).hex()))
     c.started.append((idev, pgn, peer))
